@@ -83,6 +83,7 @@ let step (m : MockConsts.mapping) (d : display) (out : string list ref) (tok : s
   | ["dump"] -> emit ("[" ^ dump d ^ "]"); d
   | ["sw"] -> emit ("[" ^ dump (get (swap_xy d)) ^ "]"); d
   | ["dbg"] -> emit (text_out (get (debug_string m d))); d
+  | ["mp"; k] -> emit ("[" ^ dump (get (map_display (shift_color m.MockConsts.m_nvalues (z_in k)) d)) ^ "]"); d
   | _ -> failwith ("bad token " ^ tok)
 
 let run_tokens m d out toks = Stdlib.List.fold_left (fun d t -> step m d out t) d toks
@@ -120,6 +121,14 @@ let init () =
            out := ("EQ " ^ b_out (mock_eq a b) ^ " DIFF [" ^ dump df ^ "] DEQ " ^ b_out (mock_eq df new_display)) :: !out
          with Panicked k -> out := ("PANIC " ^ kind_out k) :: !out);
         finish out
+    | _ -> "BAD-ARGS");
+  register "mock_points" (function
+    | _ :: c :: pts ->
+        (try
+           let l = Stdlib.List.map (fun s -> match split ':' s with [x; y] -> pt x y | _ -> failwith "pt") pts in
+           let d = get (from_points l (z_in c)) in
+           "[" ^ dump d ^ "] AA " ^ src (affected_area d)
+         with Panicked k -> "PANIC " ^ kind_out k)
     | _ -> "BAD-ARGS");
   register "mock_pattern" (function
     | ty :: rows ->
